@@ -12,7 +12,7 @@ RULE = ('random programs (3-9 statements: var/assignment operators/if-else/while
         'representable numbers incl. durations, printed with minimal parentheses per the documented precedence table and '
         'evaluated twice by ConfigCompiler::CompileText + Expression::Evaluate; operator typing matrix (every binary operator '
         'x every pair of operand kinds); precedence pairs (a op1 b op2 c for all operator pairs); scoping/closure/this '
-        'templates; callbacks that resize the array they iterate (map/filter/any/all); depth-limit programs (recursion and nesting around 300); recorded crash reproducers; programs broken at a '
+        'templates; closure-state family (closures with 0-2 parameters x use-lists of 0-2 variables that read/assign/+= captured variables, redeclare locals, rely on unset body locals, nested closures, recursion through captured function values, each called 2-3 times interleaved with outer mutations); callbacks that resize the array they iterate (map/filter/any/all); depth-limit programs (recursion and nesting around 300); recorded crash reproducers; programs broken at a '
         'known token (syntax error position); hostile stream: mutated programs, random bytes, deep nesting, deep recursion on '
         'main thread / 512 KiB thread / 256 KiB coroutine stack. Candidates whose model result leaves the exact-number domain '
         'are dropped before the run. non-trivial = program with at least 3 AST nodes whose evaluation did not end in a '
@@ -736,6 +736,12 @@ def fam_depth():
         for _ in range(n):
             e = ('arr', [e])
         cs.append(mk_case([('var', 'va', S('init')), ('try', [('set', '=', V('va'), e)], [('set', '=', V('va'), S('caught'))]), ('expr', ('bin', '==', V('va'), S('caught')))], 'depth'))
+    # many caught errors in a row must not accumulate depth (the counter is restored when an exception unwinds)
+    for n, thrower in ((150, ('throw', S('x'))), (300, ('expr', ('bin', '/', N(1), N(0)))), (120, ('expr', ('call', V('nosuchfn'), []))),
+                       (200, ('expr', ('idx', ('arr', [N(1)]), N(5))))):
+        cs.append(mk_case([('var', 'va', N(0)), ('for', 'vb', None, ('call', V('range'), [N(n)]), [('try', [thrower], [('set', '+=', V('va'), N(1))])]),
+                           ('func', 'fa', ['pa'], [], [('if', ('bin', '<=', V('pa'), N(0)), [('ret', N(0))], None), ('ret', ('bin', '+', N(1), ('call', V('fa'), [('bin', '-', V('pa'), N(1))])))]),
+                           ('expr', ('arr', [V('va'), ('call', V('fa'), [N(20)])]))], 'depth'))
     # left-deep chains are shallow for the depth counter?  no: each level nests one Evaluate
     for n in (200, 298, 299, 300, 301):
         e = N(1)
@@ -796,6 +802,113 @@ def fam_callback_resize():
             add([('var', 'va', A(1, 2, 3)), ('var', 'vb', ('call', ('dot', V('va'), m), [('fn', ['pa'], [('va', None)],
                  [('set', '=', ('idx', V('va'), N(2)), S('x')), ('ret', ret)])])), ('expr', ('arr', [V('va'), V('vb')]))])
     # unbounded growth: legal endless loop; the model runs out of loop budget and the candidate is dropped by the screen
+    return cs
+
+
+def fam_closure_state(rnd, n):
+    """closures with 0..2 parameters x use-lists of 0..2 variables whose bodies read / assign / += captured variables, redeclare
+    locals named like captured or outer variables, rely on a body `var` being unset at every call, mutate captured containers
+    (reference semantics) - each closure is called 2-3 times, interleaved with mutations of the outer variables"""
+    cs = []
+    def add(stmts, multi):
+        c = mk_case(stmts, 'closure-state')
+        c['tags']['closure_assign_multi'] = bool(multi)
+        cs.append(c)
+    L = lambda name: ('dot', ('locals',), name)
+    call = lambda f, *a: ('call', V(f), list(a))
+    # ---- fixed templates
+    add([('var', 'va', N(10)), ('var', 'fa', ('fn', [], [('va', None)], [('set', '+=', V('va'), N(1)), ('ret', V('va'))])),
+         ('expr', ('arr', [call('fa'), call('fa'), call('fa'), V('va')]))], True)
+    add([('var', 'va', N(10)), ('func', 'fa', [], [('va', None)], [('set', '=', V('va'), ('bin', '*', V('va'), N(2))), ('ret', V('va'))]),
+         ('var', 'vb', call('fa')), ('set', '=', V('va'), N(1)), ('expr', ('arr', [V('vb'), call('fa'), call('fa'), V('va')]))], True)
+    # a body-declared local must be unset at every call
+    add([('var', 'va', N(1)), ('var', 'fa', ('fn', [], [('va', None)], [('var', 'vc', ('bin', '+', L('vc'), N(1))), ('ret', ('arr', [V('vc'), ('call', ('dot', ('locals',), 'len'), [])]))])),
+         ('expr', ('arr', [call('fa'), call('fa'), call('fa')]))], True)
+    add([('var', 'fa', ('fn', [], [], [('var', 'vc', ('bin', '+', L('vc'), N(1))), ('ret', V('vc'))])), ('expr', ('arr', [call('fa'), call('fa')]))], False)
+    add([('var', 'va', N(1)), ('var', 'fa', ('fn', ['pa'], [('va', None)], [('var', 'vc', ('bin', '+', L('vc'), V('pa'))), ('set', '+=', V('va'), V('vc')), ('ret', ('arr', [V('va'), V('vc')]))])),
+         ('expr', ('arr', [call('fa', N(1)), call('fa', N(2)), call('fa', N(3))]))], True)
+    # captured containers are shared references; rebinding the captured name is local to one call
+    add([('var', 'va', ('arr', [])), ('var', 'fa', ('fn', [], [('va', None)], [('expr', ('call', ('dot', V('va'), 'add'), [('call', ('dot', V('va'), 'len'), [])])), ('set', '=', V('va'), ('arr', [N(99)])), ('ret', V('va'))])),
+         ('var', 'vb', ('arr', [call('fa'), call('fa')])), ('expr', ('call', ('dot', V('va'), 'add'), [S('outer')])), ('expr', ('arr', [V('vb'), call('fa'), V('va')]))], True)
+    add([('var', 'va', ('dict', [('ka', N(0))])), ('var', 'fa', ('fn', [], [('va', None)], [('set', '+=', ('dot', V('va'), 'ka'), N(1)), ('set', '=', V('va'), ('dict', [])), ('ret', ('call', ('dot', V('va'), 'len'), []))])),
+         ('expr', ('arr', [call('fa'), call('fa'), call('fa'), V('va')]))], True)
+    # closure returning closure: every mk() call captures its own value; each inner call starts from the captured value again
+    add([('var', 'fa', ('fn', ['pa'], [], [('var', 'vc', V('pa')), ('ret', ('fn', [], [('vc', None)], [('set', '+=', V('vc'), N(1)), ('ret', V('vc'))]))])),
+         ('var', 'va', call('fa', N(5))), ('var', 'vb', call('fa', N(7))), ('expr', ('arr', [call('va'), call('va'), call('vb'), call('va'), ('call', call('fa', N(1)), [])]))], True)
+    add([('var', 'va', N(1)), ('var', 'fa', ('fn', [], [('va', None)], [('set', '+=', V('va'), N(1)), ('ret', ('fn', [], [('va', None)], [('set', '+=', V('va'), N(10)), ('ret', V('va'))]))])),
+         ('var', 'vb', call('fa')), ('var', 'vc', call('fa')), ('expr', ('arr', [call('vb'), call('vb'), call('vc'), V('va')]))], True)
+    # state kept in a captured holder; recursion through a captured function value
+    add([('var', 'va', ('dict', [('ka', N(0))])), ('set', '=', ('dot', V('va'), 'kb'), ('fn', [], [('va', None)],
+          [('set', '+=', ('dot', V('va'), 'ka'), N(1)), ('if', ('bin', '<', ('dot', V('va'), 'ka'), N(4)), [('expr', ('call', ('dot', V('va'), 'kb'), []))], None), ('ret', ('dot', V('va'), 'ka'))])),
+         ('expr', ('arr', [('call', ('dot', V('va'), 'kb'), []), ('call', ('dot', V('va'), 'kb'), [])]))], False)
+    add([('var', 'fa', ('fn', ['pa', 'pb'], [], [('if', ('bin', '<=', V('pa'), N(0)), [('ret', N(0))], None), ('ret', ('bin', '+', V('pa'), ('call', V('pb'), [('bin', '-', V('pa'), N(1)), V('pb')])))])),
+         ('var', 'fb', ('fn', ['pa'], [('fa', None)], [('ret', ('call', V('fa'), [V('pa'), V('fa')]))])), ('expr', ('arr', [call('fb', N(4)), call('fb', N(2))]))], False)
+    # a parameterless closure that re-enters itself through a holder while assigning its captured scalar: fresh copy per call
+    add([('var', 'va', N(0)), ('var', 'vb', ('dict', [('ka', N(0))])), ('set', '=', ('dot', V('vb'), 'kb'), ('fn', [], [('va', None), ('vb', None)],
+          [('set', '+=', V('va'), N(1)), ('set', '+=', ('dot', V('vb'), 'ka'), N(1)),
+           ('if', ('bin', '<', ('dot', V('vb'), 'ka'), N(3)), [('var', 'vc', ('call', ('dot', V('vb'), 'kb'), []))], None), ('ret', ('arr', [V('va'), L('vc')]))])),
+         ('expr', ('call', ('dot', V('vb'), 'kb'), []))], True)
+    # use(x = expr) and shadowing of a parameter by a captured name of the same spelling (arguments are bound after the copy)
+    add([('var', 'va', N(3)), ('var', 'fa', ('fn', ['va'], [('va', None)], [('set', '+=', V('va'), N(1)), ('ret', V('va'))])), ('expr', ('arr', [call('fa', N(50)), call('fa', N(60)), V('va')]))], True)
+    add([('var', 'va', N(3)), ('var', 'fa', ('fn', [], [('vb', ('bin', '*', V('va'), N(2)))], [('set', '-=', V('vb'), N(1)), ('ret', V('vb'))])), ('set', '=', V('va'), N(0)),
+         ('expr', ('arr', [call('fa'), call('fa')]))], True)
+    # ---- random ones
+    scal = lambda: N(rnd.choice([0, 1, 5, 10])) if rnd.random() < 0.7 else S(rnd.choice(['a', 'xy']))
+    for _ in range(n):
+        outer = {}
+        stmts = []
+        for name in rnd.sample(['va', 'vb', 'vc'], rnd.randint(1, 3)):
+            kind = rnd.choice(['num', 'num', 'arr', 'dict', 'str'])
+            outer[name] = kind
+            stmts.append(('var', name, {'num': N(rnd.choice([0, 1, 5, 10])), 'str': S(rnd.choice(['a', 'xy'])), 'arr': ('arr', [N(1)] if rnd.random() < 0.5 else []),
+                                        'dict': ('dict', [('ka', N(0))])}[kind]))
+        params = rnd.sample(['pa', 'pb'], rnd.choice([0, 0, 0, 1, 2]))
+        uses = rnd.sample(list(outer), rnd.randint(0, min(2, len(outer))))
+        body = []
+        assigned = False
+        for _k in range(rnd.randint(1, 4)):
+            c = rnd.random()
+            tgt = rnd.choice(uses) if uses and rnd.random() < 0.8 else rnd.choice(['va', 'vb', 'vc', 'vd'])
+            kind = outer.get(tgt, 'num')
+            inc = V(rnd.choice(params)) if params and rnd.random() < 0.5 else N(rnd.choice([1, 2, 3]))
+            if c < 0.35:
+                if tgt in uses:
+                    assigned = True
+                    if kind == 'num': body.append(('set', rnd.choice(['+=', '=', '*=', '-=']), V(tgt), inc))
+                    elif kind == 'str': body.append(('set', '+=', V(tgt), S('z')))
+                    elif kind == 'arr': body.append(('set', rnd.choice(['=', '+=']), V(tgt), ('arr', [inc])))
+                    else: body.append(('set', rnd.choice(['=', '+=']), V(tgt), ('dict', [('kb', inc)])))
+                else:
+                    body.append(('var', tgt, ('bin', '+', L(tgt), inc)))      # relies on the local being unset at each call
+            elif c < 0.55:
+                body.append(('var', tgt, ('bin', '+', L(tgt), inc)))          # redeclare a name that may be captured or outer
+                assigned = assigned or tgt in uses
+            elif c < 0.75 and tgt in uses and kind in ('arr', 'dict'):
+                body.append(('expr', ('call', ('dot', V(tgt), 'add'), [inc])) if kind == 'arr' else ('set', '+=', ('dot', V(tgt), 'ka'), inc))
+            elif c < 0.85:
+                body.append(('set', '+=', ('dot', ('this',), 'kc'), N(1)))     # plain call: this = the caller's locals
+            else:
+                body.append(('if', ('bin', '>', ('call', ('dot', ('locals',), 'len'), []), N(len(uses) + len(params))), [('set', '=', ('dot', ('globals',), 'ga'), S('leak'))], None))
+        body.append(('ret', ('arr', [L(x) for x in ['va', 'vb', 'vc', 'vd']] + [('call', ('dot', ('locals',), 'len'), [])])))
+        as_stmt = rnd.random() < 0.4
+        stmts.append(('func', 'fa', params, [(u, None) for u in uses], body) if as_stmt else ('var', 'fa', ('fn', params, [(u, None) for u in uses], body)))
+        ncalls = rnd.randint(2, 3)
+        results = []
+        for i in range(ncalls):
+            args = [N(rnd.choice([1, 2, 7])) for _p in params]
+            if rnd.random() < 0.3 and params: args = args[:-1] if rnd.random() < 0.5 else args + [N(0)]
+            name = 'r%d' % i
+            stmts.append(('try', [('var', name, ('call', V('fa'), args))], [('var', name, S('caught'))]))
+            results.append(V(name))
+            if rnd.random() < 0.6:
+                o = rnd.choice(list(outer))
+                k = outer[o]
+                if k == 'num': stmts.append(('set', rnd.choice(['=', '+=']), V(o), N(100)))
+                elif k == 'str': stmts.append(('set', '+=', V(o), S('!')))
+                elif k == 'arr': stmts.append(('expr', ('call', ('dot', V(o), 'add'), [S('o')])) if rnd.random() < 0.7 else ('set', '=', V(o), ('arr', [])))
+                else: stmts.append(('set', '=', ('dot', V(o), 'kc'), N(i)))
+        stmts.append(('expr', ('arr', results + [V(x) for x in outer])))
+        add(stmts, assigned and ncalls >= 2)
     return cs
 
 
@@ -942,6 +1055,7 @@ def generate(seed, tier):
     cases += fam_depth()
     cases += fam_findings()
     cases += fam_callback_resize()
+    cases += fam_closure_state(rnd, {'quick': 400, 'thorough': 4000, 'search': 800}.get(tier, 400))
     for _ in range(n_rand):
         try:
             cases.append(mk_case(random_program(rnd), 'random-program'))
@@ -1003,4 +1117,6 @@ def extra_stats(cases, impl):
             elif l.startswith('syntax '):
                 res['syntax_located'] += 1
     res['dropped_outside_exact_domain'] = _last_dropped[0]
+    res['closure_called_twice_after_assigning_captured'] = sum(1 for c in cases if c.get('tags', {}).get('closure_assign_multi'))
+    res['closure_state_programs'] = sum(1 for c in cases if c.get('tags', {}).get('family') == 'closure-state')
     return dict(res)
